@@ -93,9 +93,8 @@ def main(ctx):
     for path, rec in common.load_replays(PID):
         col.record(rec["case"], run_case(rec["case"]), nontrivial=True, classes=["replay"])
     jobs = [(lo, min(lo + 2048, 65536)) for lo in range(0, 65536, 2048)]
-    with multiprocessing.get_context("fork").Pool(16) as pool:
-        for part in pool.imap_unordered(_sweep, jobs):
-            col.merge(part)
+    for part in common.pmap(_sweep, jobs):
+        col.merge(part)
     col.exhaustive = True
     col.extra["exhaustive_scope"] = "all codes 0..65535 through integer and answer-object predicates"
     col.extra["multiples_of_1000_not_judged"] = 66
